@@ -684,7 +684,7 @@ def file_line(sc):
         return "|".join([sc["id"], "range", str(sc["size"]), str(sc["a"]), str(sc["b"]), "-" if sc.get("trunc_after") is None else str(sc["trunc_after"]), str(sc.get("trunc_to", 0))])
     if sc["kind"] == "etag":
         return "|".join([sc["id"], "etag", str(sc["size"]), str(sc["secs"]), str(sc["nanos"]), sc["action"]])
-    return sc["id"] + "|nonregular"
+    return sc["id"] + "|nonregular" + ("|" + sc["what"] if sc.get("what") else "")
 
 
 def fam_file():
@@ -709,6 +709,8 @@ def fam_file():
                 k += 1
                 out.append({"id": "fe%d" % k, "kind": "etag", "size": size, "secs": secs, "nanos": nanos, "action": action})
     out.append({"id": "fn1", "kind": "nonregular"})
+    # neither regular, nor a directory, nor a symlink (seed C18n: the guard rewritten as `is_dir() || is_symlink()`)
+    out.append({"id": "fn2", "kind": "nonregular", "what": "chardev"})
     return out
 
 
@@ -717,7 +719,7 @@ def oracle_file(pid, sc, line):
         return None
     f = line.split("|")
     if sc["kind"] == "nonregular":
-        return None if f[1] == "refused" else "ChunkedReadFile::new accepted a directory"
+        return None if f[1] == "refused" else "ChunkedReadFile::new accepted %s" % ("the character device /dev/null (not a regular file)" if sc.get("what") == "chardev" else "a directory")
     if sc["kind"] == "etag":
         if f[3] != "-":
             return "ChunkedReadFile panics for a file modified at %d.%09d s: %s" % (sc["secs"], sc["nanos"], bytes.fromhex(f[3]).decode("utf8", "replace"))
